@@ -4,11 +4,11 @@ CONSTANTS
   NDown = 3
   Retries = 4
   NegAttempts = 10
-  MaxLoss = 12
+  MaxLoss = 6
   MaxNegLoss = 3
   PeerModes <- ModesSL
   DenyReplies <- DenyMany
-  AckTails <- TailsBoth
+  AckTails <- TailsRssi
   Bug = "none"
 INVARIANT PropertyHolds
 INVARIANT StepFormHolds
